@@ -5,6 +5,7 @@ go 1.18
 require (
 	github.com/Masterminds/semver v1.5.0
 	github.com/cube2222/octosql v0.0.0
+	github.com/segmentio/parquet-go v0.0.0-20220421002521-93f8e5ed3407
 	gopkg.in/yaml.v3 v3.0.1
 )
 
@@ -35,7 +36,6 @@ require (
 	github.com/rivo/uniseg v0.2.0 // indirect
 	github.com/segmentio/encoding v0.3.5 // indirect
 	github.com/segmentio/fasthash v1.0.3 // indirect
-	github.com/segmentio/parquet-go v0.0.0-20220421002521-93f8e5ed3407 // indirect
 	github.com/tidwall/btree v1.3.1 // indirect
 	github.com/ulikunitz/xz v0.5.10 // indirect
 	github.com/valyala/fastjson v1.6.3 // indirect
